@@ -99,12 +99,14 @@ package server
 //@   facet C19, C18
 //@   safety C19
 //@   ensures [C19:record-well-formed] result != nil && result.Key != nil && result.Key.ParentKeyMeta != nil
+//@   ensures [C18:grpc-record-maps-field-by-field] drr != nil && drr.Key != nil && drr.Key.ParentKeyMeta != nil ==> result.Data == drr.Data && result.Key.EncryptedKey == drr.Key.Key && result.Key.Created == drr.Key.Created && result.Key.ParentKeyMeta.ID == drr.Key.ParentKeyMeta.KeyId && result.Key.ParentKeyMeta.Created == drr.Key.ParentKeyMeta.Created && !result.Key.Revoked
 
 //@ func toProtobufDRR
 //@   facet C19, C18
 //@   safety C19
 //@   requires drr != nil && drr.Key != nil && drr.Key.ParentKeyMeta != nil
 //@   ensures result != nil
+//@   ensures [C18:grpc-record-maps-field-by-field] result.Key != nil && result.Key.ParentKeyMeta != nil && result.Data == drr.Data && result.Key.Key == drr.Key.EncryptedKey && result.Key.Created == drr.Key.Created && result.Key.ParentKeyMeta.KeyId == drr.Key.ParentKeyMeta.ID && result.Key.ParentKeyMeta.Created == drr.Key.ParentKeyMeta.Created
 
 //@ func newErrorResponse
 //@   facet C19
